@@ -71,6 +71,8 @@ type ConcCase struct {
 // keyed by extension, content type or name get their first, writing access under concurrency.
 var extNonce int
 
+func oldTime(i int) time.Time { return time.Unix(1000000000+int64(i)*86400*37+int64(i), 0) }
+
 func pathOf(i int, name string) string {
 	name = strings.ReplaceAll(name, "#", fmt.Sprintf("x%dg%d", extNonce, i))
 	if strings.HasPrefix(name, "^") {
@@ -125,6 +127,11 @@ func evalFiles(c ConcCase) (vev.Outcome, error) {
 	n := len(c.Seqs)
 	for i := 0; i < n; i++ {
 		os.MkdirAll(filepath.Join(root, fmt.Sprintf("g%d", i)), 0o755)
+		// a file from another epoch in every subtree: values derived from metadata (dates, tags) differ between the
+		// goroutines' resources, so a memo shared between requests is both written concurrently and observable
+		f := filepath.Join(root, fmt.Sprintf("g%d", i), "old")
+		os.WriteFile(f, []byte("old"), 0o644)
+		os.Chtimes(f, oldTime(i), oldTime(i))
 	}
 	os.MkdirAll(filepath.Join(root, "shared"), 0o755)
 	srv := httptest.NewServer(&webdav.Handler{FileSystem: webdav.LocalFileSystem(root)})
@@ -150,7 +157,9 @@ func evalFiles(c ConcCase) (vev.Outcome, error) {
 			// the model holds this goroutine's subtree and its own view of the shared directory
 			model := vfs.NewDir()
 			model.Kids[fmt.Sprintf("g%d", i)] = vfs.NewDir()
+			model.Kids[fmt.Sprintf("g%d", i)].Kids["old"] = vfs.NewFile("old")
 			model.Kids["shared"] = vfs.NewDir()
+			untouched := true // nobody has replaced, moved or removed g<i>/old yet
 			<-start
 			for k, op := range c.Seqs[i] {
 				want := vfs.Apply(model, op.req(i))
@@ -205,8 +214,15 @@ func evalFiles(c ConcCase) (vev.Outcome, error) {
 					return
 				}
 				model = want.Success[0].Tree
+				if op.Kind != "stat" && op.Kind != "readdir" && op.Kind != "open" && (op.Name == "old" || op.Dest == "old" || op.Name == "") {
+					untouched = false
+				}
 				switch op.Kind {
 				case "stat":
+					if op.Name == "old" && untouched && !stat.IsDir && stat.ModTime.Unix() != oldTime(i).Unix() {
+						outs[i] = dev("files|stat|modtime", "%s: modification time %v, the file was last modified at %v", tag, stat.ModTime.UTC(), oldTime(i).UTC())
+						return
+					}
 					if stat.IsDir != want.Target.Dir || (!stat.IsDir && stat.Size != int64(len(want.Target.Data))) {
 						outs[i] = dev("files|stat|value", "%s: got %+v, model has dir=%v size=%d", tag, stat, want.Target.Dir, len(want.Target.Data))
 						return
@@ -427,6 +443,12 @@ func evalUpload(c UpCase) (vev.Outcome, error) {
 	reached := make(chan struct{})
 	var stalledOnce, reachedOnce sync.Once
 	handler := http.HandlerFunc(func(w http.ResponseWriter, r *http.Request) {
+		if c.Code/100 != 2 && c.Code != 0 {
+			// failure answers carry a body the client neither decodes as XML nor excerpts as text (added after seeded
+			// change C18-s11: an unread body keeps the connection and its two transport goroutines alive)
+			w.Header().Set("Content-Type", []string{"application/json", "application/octet-stream", "application/problem+json"}[c.Size%3])
+			defer w.Write([]byte(`{"error":"refused","detail":"` + strings.Repeat("x", 300) + `"}`))
+		}
 		readK := func(k int) {
 			if k > 0 {
 				io.CopyN(io.Discard, r.Body, int64(k))
@@ -586,6 +608,22 @@ func evalUpload(c UpCase) (vev.Outcome, error) {
 	if len(left) > 0 {
 		return dev(cls+"|goroutine-leak", "%d goroutines with go-webdav frames remain 2 s after Close:\n%.1500s", len(left), left[0]), nil
 	}
+	// nor does the library keep the connection busy: once the client's idle connections are closed, no transport
+	// goroutine of this upload remains (only asserted where the server produced an answer)
+	if c.Server != "stall" && c.Server != "drop" {
+		tr.CloseIdleConnections()
+		remain := 0
+		for i := 0; i < 250; i++ {
+			remain = strings.Count(dump(), "net/http.(*persistConn).readLoop")
+			if remain == 0 {
+				break
+			}
+			time.Sleep(20 * time.Millisecond)
+		}
+		if remain > 0 {
+			return dev(cls+"|connection-leak", "%d transport connections are still held 5 s after Close and CloseIdleConnections (a response body left unread?)", remain), nil
+		}
+	}
 	return vev.Outcome{}, nil
 }
 
@@ -722,7 +760,7 @@ func TestAReplay(t *testing.T) {
 
 func genSeq(rt *rapid.T, files bool) []Op {
 	n := rapid.IntRange(4, 16).Draw(rt, "nops")
-	names := []string{"a", "b", "d", "d/x", "d/y", "e f", "é", "^s", "^t", "^s", "^u v", "r.#", "d/s.#", "^w.#", "r.txt"}
+	names := []string{"a", "b", "d", "d/x", "d/y", "e f", "é", "^s", "^t", "^s", "^u v", "r.#", "d/s.#", "^w.#", "r.txt", "old", "old", "old"}
 	var l []Op
 	for i := 0; i < n; i++ {
 		op := Op{Kind: rapid.SampledFrom([]string{"create", "create", "create", "mkdir", "remove", "copy", "move", "stat", "readdir", "open"}).Draw(rt, "kind"), Name: rapid.SampledFrom(names).Draw(rt, "name")}
